@@ -255,92 +255,106 @@ def run_index(case, elems, sigs, recs):
             n = len(sig) + 1
             names = names_of(sig, flavor)
             gnames = coords.field_names(sig)
-            rows = [stored_row(elems, e, sig) for e in ids]
-            a = vector.array({nm: numpy.array([r[i] for r in rows]).reshape(sh) for i, nm in enumerate(names)})
-            base = {"op": "index:" + case["kind"], "sig": [sig, None], "tag": "index", "flavor": flavor, "case": case}
-            kind, arg = case["kind"], case["arg"]
-            calls += 1
-            try:
-                if kind == "int":
-                    out = a[tuple(arg)] if len(arg) > 1 else a[arg[0]]
-                elif kind == "row":
-                    out = a[arg[0]]
-                elif kind == "slice":
-                    out = a[arg[0]: arg[1]]
-                elif kind == "mask":
-                    out = a[numpy.array(arg, dtype=bool)]
-                elif kind == "fancy":
-                    out = a[numpy.array(arg)]
-                elif kind == "step":
-                    out = a[::arg[0]]
-                elif kind == "ravel":
-                    out = a.reshape(-1)
-                elif kind == "column":
-                    out = a.reshape(-1, 1)
-                elif kind == "view":
-                    out = a.view()
-                elif kind == "copy":
-                    out = a.copy()
-                elif kind == "deepcopy":
-                    out = copy.deepcopy(a)
-                elif kind == "pickle":
-                    out = pickle.loads(pickle.dumps(a))
-                elif kind == "asarray":
-                    out = numpy.asarray(a)
-                elif kind == "asanyarray":
-                    out = numpy.asanyarray(a)
-                elif kind == "field":
-                    # every stored column, through the geometric name and through the momentum synonyms
-                    for gi, g in enumerate(gnames):
-                        spell = [g] + ([MOM[g]] if flavor == "momentum" and MOM[g] != g else [])
-                        for nm in spell:
-                            col = a[nm]
-                            want = numpy.array([r[gi] for r in rows]).reshape(sh)
-                            if type(col) is not numpy.ndarray or col.shape != tuple(sh) or not numpy.array_equal(col, want):
-                                recs.append(dict(base, kind="wrong-column", field=nm, got=repr(col)[:100]))
-                    continue
-            except Exception as ex:
-                recs.append(dict(base, kind="exception", error=f"{type(ex).__name__}: {ex}"[:300]))
-                continue
-            pos = case["positions"]
-            want_rows = [rows[p] for p in pos]
-            if kind == "int":
-                if not isinstance(out, vector.VectorObject):
-                    recs.append(dict(base, kind="not-an-object", got=type(out).__name__))
-                    continue
-                if isinstance(out, vector.Momentum) != (flavor == "momentum") or vector.dim(out) != n:
-                    recs.append(dict(base, kind="wrong-class", got=type(out).__name__))
-                if tuple(coords.sig_of(out)) != tuple(sig):
-                    recs.append(dict(base, kind="wrong-system", got=list(coords.sig_of(out))))
-                    continue
-                els = list(out.azimuthal.elements) + (list(out.longitudinal.elements) if n > 2 else []) + (list(out.temporal.elements) if n > 3 else [])
-                if [float(e) for e in els] != want_rows[0]:
-                    recs.append(dict(base, kind="wrong-element", got=[float(e) for e in els], want=want_rows[0]))
-                continue
-            if kind == "asarray":
-                if type(out) is not numpy.ndarray:
-                    recs.append(dict(base, kind="asarray-not-plain", got=type(out).__name__))
-                if out.dtype.names != tuple(gnames):
-                    recs.append(dict(base, kind="wrong-fields", got=list(out.dtype.names or ()), want=gnames))
-                    continue
-            else:
-                if type(out) is not type(a):
-                    recs.append(dict(base, kind="class-changed", got=type(out).__name__, want=type(a).__name__))
-                    continue
-                if tuple(coords.sig_of(out)) != tuple(sig) or isinstance(out, vector.Momentum) != (flavor == "momentum"):
-                    recs.append(dict(base, kind="system-or-flavor-changed", got=list(coords.sig_of(out))))
-                    continue
-                if kind in ("copy", "deepcopy", "pickle") and out.dtype != a.dtype:
-                    recs.append(dict(base, kind="dtype-changed", got=repr(out.dtype)))
-            if tuple(out.shape) != tuple(case["rshape"]):
-                recs.append(dict(base, kind="wrong-shape", got=list(out.shape), want=case["rshape"]))
-                continue
-            plain = numpy.asarray(out)
-            for gi, g in enumerate(gnames):
-                col = plain[g].ravel()
-                if [float(x) for x in col] != [r[gi] for r in want_rows]:
-                    recs.append(dict(base, kind="wrong-elements", field=g, got=[float(x) for x in col][:6], want=[r[gi] for r in want_rows][:6]))
-                    break
+            rows0 = [stored_row(elems, e, sig) for e in ids]
+            cartesian = all(x in ("xy", "z", "t") for x in sig)
+            for dtype in ([numpy.float64, numpy.int64, numpy.float32] if cartesian else [numpy.float64, numpy.float32]):
+              # float32 / int64 columns: the stored values are the dtype's own values
+              rows = [[float(numpy.asarray(x, dtype=dtype)) for x in r] for r in rows0]
+              a = vector.array({nm: numpy.array([r[i] for r in rows], dtype=dtype).reshape(sh) for i, nm in enumerate(names)})
+              base = {"op": "index:" + case["kind"], "sig": [sig, None], "tag": "index", "flavor": flavor, "case": case, "dtype": numpy.dtype(dtype).name}
+              kind, arg = case["kind"], case["arg"]
+              calls += 1
+              try:
+                  if kind == "int":
+                      out = a[tuple(arg)] if len(arg) > 1 else a[arg[0]]
+                  elif kind == "row":
+                      out = a[arg[0]]
+                  elif kind == "slice":
+                      out = a[arg[0]: arg[1]]
+                  elif kind == "mask":
+                      out = a[numpy.array(arg, dtype=bool)]
+                  elif kind == "fancy":
+                      out = a[numpy.array(arg)]
+                  elif kind == "step":
+                      out = a[::arg[0]]
+                  elif kind == "ravel":
+                      out = a.reshape(-1)
+                  elif kind == "column":
+                      out = a.reshape(-1, 1)
+                  elif kind == "view":
+                      out = a.view()
+                  elif kind == "copy":
+                      out = a.copy()
+                  elif kind == "deepcopy":
+                      out = copy.deepcopy(a)
+                  elif kind == "pickle":
+                      out = pickle.loads(pickle.dumps(a))
+                  elif kind == "asarray":
+                      out = numpy.asarray(a)
+                  elif kind == "asanyarray":
+                      out = numpy.asanyarray(a)
+                  elif kind == "field":
+                      # every stored column, through the geometric name and through the momentum synonyms
+                      for gi, g in enumerate(gnames):
+                          spell = [g] + ([MOM[g]] if flavor == "momentum" and MOM[g] != g else [])
+                          for nm in spell:
+                              col = a[nm]
+                              want = numpy.array([r[gi] for r in rows]).reshape(sh)
+                              if type(col) is not numpy.ndarray or col.shape != tuple(sh) or not numpy.array_equal(col, want):
+                                  recs.append(dict(base, kind="wrong-column", field=nm, got=repr(col)[:100]))
+                      continue
+              except Exception as ex:
+                  recs.append(dict(base, kind="exception", error=f"{type(ex).__name__}: {ex}"[:300]))
+                  continue
+              pos = case["positions"]
+              want_rows = [rows[p] for p in pos]
+              if kind == "int":
+                  if not isinstance(out, vector.VectorObject):
+                      recs.append(dict(base, kind="not-an-object", got=type(out).__name__))
+                      continue
+                  if isinstance(out, vector.Momentum) != (flavor == "momentum") or vector.dim(out) != n:
+                      recs.append(dict(base, kind="wrong-class", got=type(out).__name__))
+                  if tuple(coords.sig_of(out)) != tuple(sig):
+                      recs.append(dict(base, kind="wrong-system", got=list(coords.sig_of(out))))
+                      continue
+                  els = list(out.azimuthal.elements) + (list(out.longitudinal.elements) if n > 2 else []) + (list(out.temporal.elements) if n > 3 else [])
+                  if [float(e) for e in els] != want_rows[0]:
+                      recs.append(dict(base, kind="wrong-element", got=[float(e) for e in els], want=want_rows[0]))
+                  # the coordinate arrays index to the coordinate objects of that element
+                  idx = tuple(arg) if len(arg) > 1 else arg[0]
+                  for gname in ["azimuthal"] + (["longitudinal"] if n > 2 else []) + (["temporal"] if n > 3 else []):
+                      calls += 1
+                      try:
+                          cobj, want_c = getattr(a, gname)[idx], getattr(out, gname)
+                          if type(cobj) is not type(want_c) or [float(e) for e in cobj.elements] != [float(e) for e in want_c.elements]:
+                              recs.append(dict(base, kind="coordinate-array-element-differs", group=gname, got=repr(cobj)[:100], want=repr(want_c)[:100]))
+                      except Exception as ex:
+                          recs.append(dict(base, kind="exception", group=gname, error=f"{type(ex).__name__}: {ex}"[:200]))
+                  continue
+              if kind == "asarray":
+                  if type(out) is not numpy.ndarray:
+                      recs.append(dict(base, kind="asarray-not-plain", got=type(out).__name__))
+                  if out.dtype.names != tuple(gnames):
+                      recs.append(dict(base, kind="wrong-fields", got=list(out.dtype.names or ()), want=gnames))
+                      continue
+              else:
+                  if type(out) is not type(a):
+                      recs.append(dict(base, kind="class-changed", got=type(out).__name__, want=type(a).__name__))
+                      continue
+                  if tuple(coords.sig_of(out)) != tuple(sig) or isinstance(out, vector.Momentum) != (flavor == "momentum"):
+                      recs.append(dict(base, kind="system-or-flavor-changed", got=list(coords.sig_of(out))))
+                      continue
+                  if kind in ("copy", "deepcopy", "pickle", "slice", "row", "mask", "fancy", "step", "ravel", "column", "view", "asanyarray") and out.dtype != a.dtype:
+                      recs.append(dict(base, kind="dtype-changed", got=repr(out.dtype)))
+              if tuple(out.shape) != tuple(case["rshape"]):
+                  recs.append(dict(base, kind="wrong-shape", got=list(out.shape), want=case["rshape"]))
+                  continue
+              plain = numpy.asarray(out)
+              for gi, g in enumerate(gnames):
+                  col = plain[g].ravel()
+                  if [float(x) for x in col] != [r[gi] for r in want_rows]:
+                      recs.append(dict(base, kind="wrong-elements", field=g, got=[float(x) for x in col][:6], want=[r[gi] for r in want_rows][:6]))
+                      break
     return calls
 
 
@@ -350,12 +364,15 @@ def run_object_array_forms(elems, sigs, recs):
     import vector
 
     calls = 0
-    for sig in sigs:
+    # second and third pass: the SAME stored numbers in every system, one after the other in this process (the array
+    # form of one object must not depend on which objects were converted before it)
+    for raw in (None, [1.5, 0.25, 0.5, 2.0], [2, 1, 3, 7]):
+      for sig in sigs:
         for flavor in ("generic", "momentum"):
             names = names_of(sig, flavor)
-            row = stored_row(elems, 2, sig)
-            o = vector.obj(**dict(zip(names, row)))
-            base = {"op": "object-array-form", "sig": [sig, None], "tag": "index", "flavor": flavor}
+            row = stored_row(elems, 2, sig) if raw is None else [float(x) for x in raw[: len(sig) + 1]]
+            o = vector.obj(**dict(zip(names, row if raw is None else raw[: len(sig) + 1])))
+            base = {"op": "object-array-form", "sig": [sig, None], "tag": "index", "flavor": flavor, "values": "same-in-every-system" if raw else "pool"}
             for form, f in (("__array__", lambda: o.__array__()), ("asanyarray", lambda: numpy.asanyarray(o)), ("asarray", lambda: numpy.asarray(o))):
                 calls += 1
                 try:
@@ -388,6 +405,10 @@ ONE_VECTOR_OPS = {
     "scale": lambda v: v.scale(2.0), "rotateZ": lambda v: v.rotateZ(0.25), "unit": lambda v: v.unit(),
     "neg": lambda v: -v, "to_native_again": lambda v: getattr(v, "to_" + "".join(coords.field_names(coords.sig_of(v))))(),
     "to_rhophi_or_xy": lambda v: v.to_rhophi() if coords.sig_of(v)[0] == "xy" else v.to_xy(),
+    # dimension changes: projections drop, embeddings impute a constant next to possibly missing records
+    "to_Vector2D": lambda v: v.to_Vector2D(), "to_Vector3D": lambda v: v.to_Vector3D(), "to_Vector4D": lambda v: v.to_Vector4D(),
+    "to_rhophieta": lambda v: v.to_rhophieta(), "to_xyzt": lambda v: v.to_xyzt(),
+    "to_Vector4D-keywords": lambda v: v.to_Vector4D(**({"z": 1.5} if len(coords.sig_of(v)) < 2 else {}), **({"t": 7.25} if len(coords.sig_of(v)) < 3 else {})),
 }
 SCALAR_OPS = {"rho": lambda v: v.rho, "phi": lambda v: v.phi, "dot_self": lambda v: v.dot(v)}
 TWO_VECTOR_OPS = {"add_self": lambda v, o: v.add(v), "subtract_object": lambda v, o: v.subtract(o), "add_operator": lambda v, o: v + v}
